@@ -1,6 +1,7 @@
 import HapVerif.Model.C18
 import HapVerif.Model.C18Hist
 import HapVerif.Model.C18Gw
+import HapVerif.Model.C18OAuth
 import HapVerif.Generated.Facts
 import HapVerif.Drv.Common
 /-!
@@ -15,6 +16,10 @@ Driver of C18.  Case lines (see harness/cmd/hv/c18.go):
       converters.Sync(): Gateway API HTTPRoutes whose Services carry the annotations, then Ingress
       objects (see harness/cmd/hv/c18gw.go); the visits of the gateway converter (`simulate`) and what
       the Service annotations mean at that point of the sync (`gwUrl`, `gwOAuth`) are derived here
+  `C18 oa <glob> <ing>[,<ing>...] => <path>|...||<binds>`   a full converter Sync over ingresses with
+      LITERAL paths in two namespaces (see harness/cmd/hv/c18oauth.go): which published path
+      `findBackend` takes for the oauth2-proxy is computed by the model (Model/C18OAuth.lean), the Spec
+      `oaOracle` names the backends published at the uri prefix
 
 The abstraction of the concrete annotation values of the harness grammar (what each auth-url means
 to `setAuthExternal`) is the table `urlOf` below.
@@ -709,6 +714,112 @@ def handleGw (glob gws svcs routes ings impl : String) : Verdict :=
       | _, _ => bad "gw-parse"
     | _, _, _ => bad "gw-parse"
 
+/-! ### oauth lookup mode: literal paths around the uri prefix, two namespaces
+
+`<ing>` = `<ns>.<host>.<path>.<match>.<svc>.<url>.<oauth>.<pfx>`: namespace (0 default, 1 other), host
+h<host>.local, the declared path as it is written (no `.`, `,` or blank), path type b|p|e, service
+svc<svc> of the namespace (backend `<ns>_svc<svc>_8080`), auth-url key (IP-literal or invalid URLs only:
+what they mean does not depend on the namespace), oauth key (`-` absent, o/d accepted names, u/e refused),
+oauth-uri-prefix (`-` absent, `e` present and empty, else the value).  Placement is never set. -/
+
+/-- the comparison the tree under test has inside the loop of `findBackend`, read from the
+regenerated facts -/
+def currentPathTest : PathTest :=
+  if Facts.c18FindBackendConds.any (fun s => isInfix "strings.HasPrefix(path.Path(), uriPrefix)".toList s.toList) then .hasPrefix
+  else .eqTrim
+
+structure OaTok where
+  ns : Nat
+  host : Nat
+  path : String
+  mtch : String
+  svc : Nat
+  url : String
+  oauth : String
+  pfx : String
+deriving Repr, DecidableEq
+
+def parseOaTok (s : String) : Option OaTok :=
+  match s.splitOn "." with
+  | [n, h, p, m, v, u, o, x] => do
+    let n ← n.toNat?
+    let h ← h.toNat?
+    let v ← v.toNat?
+    if n > 1 || h > 9 || v > 9 || !p.startsWith "/" then none
+    else pure { ns := n, host := h, path := p, mtch := m, svc := v, url := u, oauth := o, pfx := x }
+  | _ => none
+
+def oaNs : Nat → String
+  | 0 => "default"
+  | _ => "other"
+
+def oaHost (h : Nat) : String := "h" ++ toString h ++ ".local"
+
+def oaPub (g : OaTok) : Pub :=
+  { host := oaHost g.host, path := g.path, ns := oaNs g.ns,
+    backend := oaNs g.ns ++ "_svc" ++ toString g.svc ++ "_8080" }
+
+/-- outer `none`: token outside the grammar -/
+def oaDeclOf (g : OaTok) : Option (Option OAuthDecl) :=
+  let pfx : Option (Option String) :=
+    if g.pfx = "-" then some none
+    else if g.pfx = "e" then some (some "")
+    else if g.pfx.startsWith "/" then some (some g.pfx)
+    else none
+  match g.oauth with
+  | "-" => pfx.map fun _ => none
+  | "o" | "d" => pfx.map fun a => some ⟨true, a⟩
+  | "u" | "e" => pfx.map fun a => some ⟨false, a⟩
+  | _ => none
+
+def oaUrlOk (u : String) : Bool := ["-", "e", "h1", "h2", "hs", "hq", "bp", "mf", "sq"].contains u
+
+/-- position of the path in `Backend.Paths` order (hostname, path ascending) -/
+def oaOrd (toks : List OaTok) (g : OaTok) : Nat :=
+  toks.countP fun g' =>
+    decide (oaHost g'.host < oaHost g.host) || (g'.host == g.host && decide (g'.path < g.path))
+
+def oaPathIn (t : PathTest) (toks : List OaTok) (g : OaTok) : Option (PathIn × OaDecl) := do
+  let hm ← (match g.mtch with | "b" => some "beg" | "p" => some "dir" | "e" => some "str" | _ => none)
+  let d ← oaDeclOf g
+  if !oaUrlOk g.url then none
+  let url ← urlOf false g.url
+  let pubs := toks.map oaPub
+  let key := oaHost g.host ++ "#" ++ g.path
+  pure ({ host := g.host, backend := g.ns * 10 + g.svc, ord := oaOrd toks g, key := key, hamatch := hm,
+          sub := if g.mtch = "e" then key else key ++ "/sub", url := url, plc := .absent,
+          oauth := (match d with | some d => oauthAnnOf t pubs (oaNs g.ns) d | none => .absent),
+          signin := false },
+        { ns := oaNs g.ns, oauth := d })
+
+def handleOa (glob ings impl : String) : Verdict :=
+  match parseGlob glob, (ings.splitOn ",").mapM parseOaTok with
+  | some (x, l, _, rs, re), some toks =>
+    if !(toks.map fun g => (g.host, g.path)).Nodup then bad "oa-scope-duplicate-host-path" else
+    match toks.mapM (oaPathIn currentPathTest toks) with
+    | none => bad "oa-parse"
+    | some pds =>
+      let w : World := { isExternal := x, hasLua := l, rangeStart := rs, rangeEnd := re, paths := pds.map (·.1) }
+      let decls := pds.map (·.2)
+      let pubs := toks.map oaPub
+      let outs := (hostOrders w (hostsOf w)).flatMap fun ho => (backOrders w (backendsOf w)).map fun bo =>
+        showState w (run currentVariant w ho bo)
+      let m := outs.headD ""
+      if impl = "PANIC" then { model := m, agree := false, oracle := some "panic-in-updater" } else
+      match impl.splitOn "||" with
+      | [ps, bs] =>
+        match (ps.splitOn "|").mapM parseObs, parseBinds bs with
+        | some obs, some binds =>
+          if obs.length ≠ w.paths.length then bad "impl-paths" else
+          let agreeing := outs.find? (· = impl)
+          { model := agreeing.getD m, agree := agreeing.isSome,
+            oracle := (oaOracle pubs w binds decls obs).orElse fun _ =>
+              if bindsOk w.rangeStart w.rangeEnd binds then none else some "auth-proxy-binds-inconsistent",
+            trivial := (w.paths.zip decls).all fun (p, d) => !oaDeclared p d }
+        | _, _ => bad "impl-output"
+      | _ => bad "impl-output"
+  | _, _ => bad "oa-parse"
+
 /-! ### entry -/
 
 def handle (args : List String) (impl : String) : Verdict :=
@@ -718,6 +829,7 @@ def handle (args : List String) (impl : String) : Verdict :=
     handleAlloc rs re ops impl
   | ["hist", glob, ings, ops] => handleHist glob ings ops impl
   | ["gw", glob, gws, svcs, routes, ings] => handleGw glob gws svcs routes ings impl
+  | ["oa", glob, ings] => handleOa glob ings impl
   | [glob, ings] =>
     match parseWorld glob ings with
     | none => bad "parse"
